@@ -158,10 +158,10 @@ def obligations(tier, seed):
                 obs.append(Ob(
                     name="agrees_%s_%s%s" % (KINDS[t], "method" if m else "function", "_main" if via else ""),
                     params=[("g", "int"), ("pa", "int"), ("pb", "int"), ("i", "int")],
-                    pre=["0 <= g <= 2", "0 <= pa <= 4", "0 <= pb <= 4", "0 <= i <= 1", "g == 0 or pb == 0"],
+                    pre=["0 <= g <= 2", "0 <= pa <= 4", "0 <= pb <= 4", "0 <= i <= 2", "g == 0 or pb == 0"],
                     body="H.agrees(%d, g, pa, pb, %d, i, {ACTIVE}, via_main=%r)" % (t, m, via), witness=(0, 4, 4, 0), kind="F",
                     bounds="truth=%s, function target is a %s, via %s; which kinds are given (all three / truth + one other), the pre-state of every "
-                    "non-truth target in {missing, empty, definition absent, stale, agreeing} and the interface description (pool of 2): exhaustive"
+                    "non-truth target in {missing, empty, definition absent, stale, agreeing} and the interface description (pool of 3, one with a return entry that carries a default): exhaustive"
                     % (KINDS[t], "method" if m else "top-level function", "__main__.main(argv)" if via else "conformance.ground_truth"),
                     timeout=280 if tier == "quick" else 1200, path_timeout=120, funcs=FUNCS))
     obs.append(Ob(name="second_file_of_truth_kind", params=[("t", "int"), ("st", "int"), ("m", "int"), ("i", "int")],
